@@ -29,6 +29,8 @@ const (
 
 	redacted         = "redacted"
 	readDelayDivisor = 1_000
+	// maxCloseGrace bounds the time Close gives the read loop to leave before it closes the transport.
+	maxCloseGrace = time.Second
 )
 
 var (
@@ -243,7 +245,7 @@ func (c *Channel) close() error {
 		verifYield("C_tclose")
 
 		return c.t.Close(false)
-	case <-time.After(c.ReadDelay * (c.ReadDelay / readDelayDivisor)): //nolint:durationcheck
+	case <-time.After(c.closeGrace()):
 		// channel is stuck in a blocking read (almost always the case for netconf!), force close
 		// transport to finish closing connection, so give it c.ReadDelay*(c.ReadDelay/1000) to
 		// "nicely" exit -- with defaults this ends up being 62.5ms.
@@ -253,6 +255,18 @@ func (c *Channel) close() error {
 
 		return c.t.Close(true)
 	}
+}
+
+// closeGrace is how long close waits for the read loop to leave by itself before the transport is
+// closed under it: c.ReadDelay*(c.ReadDelay/1000), 62.5ms with the defaults. the product grows with the
+// square of the read delay (9s at 3ms, 100s at 10ms), so it is capped -- Close returns in bounded time.
+func (c *Channel) closeGrace() time.Duration {
+	grace := c.ReadDelay * (c.ReadDelay / readDelayDivisor) //nolint:durationcheck
+	if grace > maxCloseGrace || grace < 0 {
+		grace = maxCloseGrace
+	}
+
+	return grace
 }
 
 type result struct {
